@@ -112,6 +112,9 @@ def tla_val(o, key=None):
     if isinstance(o, bool):
         return "TRUE" if o else "FALSE"
     if isinstance(o, int):
+        # TLC integers are 32-bit: larger values from the parser dump (e.g. u32::MAX) are capped; the model then
+        # drifts from the code there, which is reported as drift, never as a tool error
+        o = max(min(o, 2147483647), -2147483647)
         return str(o) if o >= 0 else "(0 - %d)" % (-o)
     if isinstance(o, str):
         return tla_str(o)
@@ -185,6 +188,8 @@ def gen_constants(dump, custom_th=None, caps=None, track_hist=None):
     opts["switch_max_key_timing"] = dump["switch_max_key_timing"]
     if dump.get("chv2"):      # defchordsv2 table: makes the ChordsV2.tla branch of Layout/Kanata reachable
         opts["chv2"] = dump["chv2"]
+        if dump.get("chv2_key_order"):     # per key: its chords (key lists) in the parser's order (KeyRepeat.tla, C14)
+            opts["chv2ko"] = {"intmap": dump["chv2_key_order"]}
     # defseq trie: makes the SeqMode.tla branch of Kanata.tla reachable (only for configs that can enter the mode)
     if isinstance(dump.get("sequences"), list) and (dump["sequences"] or opts.get("sequence_always_on")
                                                     or '"seqleader"' in json.dumps(acts)):
